@@ -22,6 +22,11 @@ import (
 
 type routesEngine struct{ n int }
 
+// file names an embedder's users really have: blanks, accents, the narrow no-break space macOS puts into screenshot names,
+// a no-break space, a tab, quotes, a backslash
+var routeFileNames = []string{"prog-%d-%d.lisp", "my prog %d-%d.lisp", "prog\u202fAM %d-%d.lisp", "caf\u00e9 %d-%d.lisp", "nb\u00a0sp %d-%d.lisp",
+	"tab\t%d-%d.lisp", "q'uote %d-%d.lisp", "dq\"uote %d-%d.lisp", "back\\slash %d-%d.lisp", "zero\u200bwidth %d-%d.lisp"}
+
 // rawLit is a string the program text spells as a RAW string literal ¬…¬ (the only token that may span lines: its
 // line breaks are the text's own line endings, CR LF under a CRLF layout)
 type rawLit struct{ lines []string }
@@ -325,7 +330,7 @@ func (e *routesEngine) run(payload string) string {
 			}
 			os.MkdirAll(dir, 0o755)
 			e.n++
-			path := filepath.Join(dir, fmt.Sprintf("prog-%d-%d.lisp", os.Getpid(), e.n))
+			path := filepath.Join(dir, fmt.Sprintf(routeFileNames[e.n%len(routeFileNames)], os.Getpid(), e.n))
 			if err := os.WriteFile(path, []byte(strings.Join(forms, between)+ending), 0o644); err != nil {
 				return err
 			}
@@ -345,7 +350,13 @@ func (e *routesEngine) run(payload string) string {
 		}
 		os.MkdirAll(dir, 0o755)
 		e.n++
-		path := filepath.Join(dir, fmt.Sprintf("script-%d-%d.lisp", os.Getpid(), e.n))
+		// (command.ExecuteFile splices the path into lisp source by hand: a double quote or a backslash in it is the
+		// embedder's own affair, every other character must arrive at the file system as it is)
+		name := routeFileNames[(e.n+3)%len(routeFileNames)]
+		if strings.ContainsAny(name, "\"\\") {
+			name = routeFileNames[2]
+		}
+		path := filepath.Join(dir, fmt.Sprintf("x"+name, os.Getpid(), e.n))
 		if err := os.WriteFile(path, []byte(strings.Join(forms, between)+ending), 0o644); err != nil {
 			return err
 		}
